@@ -27,6 +27,7 @@ class Harness:
         self.note = attrs.get("note", "")
         self.timeout = int(attrs.get("timeout", "900"))
         self.covers = attrs.get("covers", "all")      # all | any  (vacuity guard)
+        self.leak = attrs.get("leak", "0") == "1"     # run with CBMC --memory-leak-check
 
 
 _OB_RE = re.compile(r"^\s*//\s*@ob\s+(.*)$")
@@ -182,7 +183,7 @@ def parse_terse(out):
     return res
 
 
-def run_kani(scratch, harnesses, jobs=14, features="", log_path=None, regular=False, timeout_each=900):
+def run_kani(scratch, harnesses, jobs=14, features="", log_path=None, regular=False, timeout_each=900, leak=False):
     names = [h.name for h in harnesses]
     cmd = ["cargo", "kani"] + KANI_FLAGS
     if features == "no-default":
@@ -195,6 +196,8 @@ def run_kani(scratch, harnesses, jobs=14, features="", log_path=None, regular=Fa
     if not regular:
         cmd += ["-j", str(max(1, min(jobs, len(names)))), "--output-format", "terse"]
     cmd += ["--harness-timeout", "%ds" % timeout_each]
+    if leak:
+        cmd += ["--cbmc-args", "--memory-leak-check"]
     env = dict(os.environ)
     env["CARGO_NET_OFFLINE"] = "true"
     env.pop("RUSTUP_TOOLCHAIN", None)
@@ -234,11 +237,16 @@ def classify(h, r):
         if r["failed"] == 0:
             return "undecided", "status %s with 0 failed checks (covers?)" % r["status"]
         return "violation", "; ".join("%s @ %s:%d in %s" % c for c in fc[:6])
-    if h.expect.startswith("panic:"):
-        rx = re.compile(h.expect[len("panic:"):])
+    if h.expect.startswith("panic:") or h.expect.startswith("maypanic:"):
+        must = h.expect.startswith("panic:")
+        rx = re.compile(h.expect.split(":", 1)[1])
         if r["failed"] == 0:
+            if not must:
+                if "covers_total" in r and r["covers_sat"] != r["covers_total"]:
+                    return "undecided", "vacuity guard: only %d of %d covers satisfied" % (r["covers_sat"], r["covers_total"])
+                return "pass", ""
             return "violation", "expected the documented panic in %s but every check passed (the call returned)" % rx.pattern
-        bad = [c for c in fc if not rx.search(c[3])]
+        bad = [c for c in fc if not rx.search("%s @ %s" % (c[0], c[3]))]
         if bad:
             return "violation", "failure outside the documented panic site: " + "; ".join("%s @ %s:%d in %s" % c for c in bad[:6])
         return "pass", "only the documented panic fails (%d check[s] in %s)" % (len(fc), rx.pattern)
